@@ -10,6 +10,8 @@ import (
 	"os/exec"
 	"path/filepath"
 	"runtime"
+	"runtime/debug"
+	"runtime/pprof"
 	"sort"
 	"strings"
 	"time"
@@ -80,8 +82,18 @@ func main() {
 		fmt.Fprintln(os.Stderr, "usage: gosmt run|replay|selftest ...")
 		os.Exit(2)
 	}
+	// the interpreter allocates heavily and memory is plentiful: collect less often
+	debug.SetGCPercent(1000)
 	switch os.Args[1] {
 	case "run":
+		if p := os.Getenv("GOSMT_CPUPROFILE"); p != "" {
+			f, _ := os.Create(p)
+			pprof.StartCPUProfile(f)
+			rc := cmdRun(os.Args[2:])
+			pprof.StopCPUProfile()
+			f.Close()
+			os.Exit(rc)
+		}
 		os.Exit(cmdRun(os.Args[2:]))
 	case "replay":
 		os.Exit(cmdReplay(os.Args[2:]))
